@@ -113,6 +113,10 @@ def never_written(prog, qn):
     return cache[qn]
 
 
+import itertools as _it
+_UNIQ = _it.count(1)       # names of interpreter-made objects are unique for the life of the process (never derived from addresses)
+
+
 UNINIT = ('U',)          # a byte of freshly allocated storage nobody has written
 
 
@@ -235,7 +239,7 @@ class Run:
         """a fresh modelled record of class cls: constructed by ctor_expr (a 'construct' expression whose constructor has a body),
         or a field-wise copy of another record"""
         self._anon = getattr(self, '_anon', 0) + 1
-        name = 'rec%d_%d' % (self._anon, id(self) & 0xfffff)
+        name = 'rec%d' % next(_UNIQ)
         if copy_of is not None:
             self.recs[name] = dict(self.recs[copy_of])
             return name
@@ -262,7 +266,7 @@ class Run:
 
     def temp_string(self, chars):
         self._anon = getattr(self, '_anon', 0) + 1
-        tid = 'str%d_%d' % (self._anon, id(self) & 0xfffff)
+        tid = 'str%d' % next(_UNIQ)
         self.bufs[('O', tid)] = list(chars) + [0]
         self.objlen[tid] = len(chars)
         self.strobjs.add(tid)
@@ -298,7 +302,7 @@ class Run:
         if l[0] == 'var' and not T(g, pt.get('to')).get('const') and not (isinstance(cur_, tuple) and cur_[0] in ('R', 'THIS', 'THISOF', 'SLIST', 'DICT', 'OBJ')):
             # a local scalar handed to a non-const reference parameter (an out-parameter): the variable moves into a cell both
             # functions see; it may still be unset
-            name = ('V', l[1], id(self))
+            name = ('V', l[1], next(_UNIQ))
             self.bufs[name] = [self.vars.get(l[1], UNINIT)]
             self.boxed[l[1]] = name
             sub.boxed[p_['id']] = self.boxslot(l[1])
@@ -810,7 +814,7 @@ class Run:
                     return self.vars[l[1]]          # address of a reference parameter bound to a modelled record
                 if l[0] == 'var':
                     if l[1] not in self.boxed:
-                        name = ('V', l[1], id(self))
+                        name = ('V', l[1], next(_UNIQ))
                         self.bufs[name] = [self.vars.get(l[1], 0)]
                         self.boxed[l[1]] = name
                     bn_, bi_ = self.boxslot(l[1])
@@ -1324,7 +1328,7 @@ class Run:
             if oid not in self.strobjs and name == 'clone' and not e.get('a'):
                 # Array::clone(): a new array with its own copy of the elements
                 self._anon = getattr(self, '_anon', 0) + 1
-                nid = 'clone%d_%d' % (self._anon, id(self) & 0xffff)
+                nid = 'clone%d' % next(_UNIQ)
                 self.bufs[('O', nid)] = list(self.bufs[('O', oid)])
                 self.objlen[nid] = self.objlen.get(oid, len(self.bufs[('O', oid)]))
                 return ('P', ('O', nid), 0)
